@@ -16,6 +16,7 @@ def main(argv):
     tier, seed = tier_seed(argv)
     rep = Report('C17', tier, seed)
     rng = random.Random(seed)
+    G.ALLOW_STR_SUBCLASS = True
     n = 1500 if tier == 'quick' else 40000
     cases = []
     for _ in range(n):
